@@ -38,11 +38,11 @@ ASSUMPTIONS = [
     "role takers: the inference of Chair.head_of through the role taker is NOT in the Lean model; loops with roles "
     "are query-free, so what they record cannot influence the observation (nothing is pinned: everything dies, "
     "C20_no_pins_no_survivors) - the model side runs them with the role assertions left out",
-    "no transitive assertion is generated while a dropped instance may be unswept (that raises: finding F-C14-2, "
-    "C14's subject); the window between a death and the next sweep is otherwise kept open",
+    "the window between a death and the next sweep is kept open, transitive assertions next to dead, unswept "
+    "instances included (they raised before the repair of F-C14-2)",
 ]
 RULE = ("fixed families (never queried / queried without domain / with explicit domain / held query object / related "
-        "instances / mid-body drops / temporaries created and discarded back to back / Role[Emp] instances whose "
+        "instances / mid-body drops / a transitive assertion next to a dead, unswept instance / temporaries created and discarded back to back / Role[Emp] instances whose "
         "head_of infers through the role taker, query-free) x 4-5 iterations + random loop bodies of 2-9 operations "
         "(drops without a sweep, churn) + random query-free role bodies + long-lived roots holding transients that are "
         "reached by queries over the root type through flatten(root.knows) + evaluations that are requested at one point "
@@ -86,6 +86,13 @@ def _families():
                 out.append(([["churn", 0, k, c], ["new", 50, c], ["query", c]], "churn+query"))
         out.append(([["new", 0, 2], ["new", 1, 1], ["set", 0, 0, 1], ["drop", 0], ["drop", 1], ["churn", 10, 6, 2],
                      ["new", 20, 2], ["new", 21, 1], ["set", 0, 20, 21]], "churn+related"))
+        # a transitive assertion next to a dead, not yet swept instance (it raised before the repair of F-C14-2)
+        base = [["new", 0, 1], ["new", 1, 1], ["new", 2, 1]]
+        dead = [["set", 3, 0, 1], ["drop", 0], ["set", 3, 1, 2]]
+        out.append((base + dead, "dead-neighbour"))
+        out.append((base + dead + [["query", 1]], "dead-neighbour"))
+        out.append((base + [["new", 3, 1], ["set", 3, 0, 1], ["set", 3, 3, 1], ["drop", 0], ["drop", 3],
+                            ["set", 3, 1, 2]], "dead-neighbour"))
         # roles: chair.head_of = org infers org.members ∋ chair, whose inverse lives on the chair's role taker
         base = [["new", 0, 2], ["new", 1, 1], ["newrole", 2, 0]]
         out.append((base, "role"))
@@ -137,19 +144,8 @@ def generate(rng, tier, n):
             b = rng.randint(a, len(ops))
             ops.insert(b, ["qdrain", 77])
             ops.insert(a, ["qstart", 77, rng.choice([0, 1, 2, 2, 4])])
-        # A dead, unswept instance met by the transitive inference raises (finding F-C14-2, C14's subject). Loop
-        # bodies keep the window between a death and the next sweep open (ids and node indices are recycled in it)
-        # and stay clear of F-C14-2 by construction: no transitive assertion while a dropped instance may be unswept.
-        kept, dirty = [], False
-        for op in ops:
-            if op[0] == "drop":
-                dirty = True
-            elif op[0] == "sweep" or op[0] in ("query", "queryd", "evalq", "qdrain"):
-                dirty = False
-            elif op[0] == "set" and int(op[1]) == 3 and dirty:
-                continue
-            kept.append(op)
-        ops = kept
+        # Loop bodies keep the window between a death and the next sweep open (ids and node indices are recycled in
+        # it); a transitive assertion may meet a dead, unswept instance there (F-C14-2, repaired: it is left out).
         tags = ["random"]
         if any(op[0] in ("query", "queryd", "mkq", "mkqd") for op in ops):
             tags.append("with-query")
